@@ -7,18 +7,24 @@ import icontract
 import torch
 import torchtt
 
-from rt_common import (as_matrix, case_id, clause, contract, dense, dtype_of, fro, rand_tt, seed_all,
+from rt_common import (as_matrix, case_id, clause, contract, dense, dtype_of, fro, rand_tt, scale_tag, scale_tt, seed_all,
                        shape_of, snapshot_tt, unchanged, within)
 
 C = 50.0
 FLOOR = 1e-9
+ZERO_TOL = 1e-12   # exact product 0: ||result|| <= ZERO_TOL * max(1,||first||) * max(1,||second||)
 
 
-def _accuracy(result, exact, eps):
+def _accuracy(result, exact, eps, first=None, second=None):
     rd = dense(result)
     ne = fro(exact)
     if rd.numel() != exact.numel():
         return False, "dense result has %d entries, exact product has %d" % (rd.numel(), exact.numel())
+    if ne == 0.0:
+        # zero operand(s): the exact product is the zero tensor, the result has to be numerically zero
+        ref = max(1.0, fro(dense(first)) if first is not None else 1.0) * max(1.0, fro(dense(second)) if second is not None else 1.0)
+        return within(fro(rd), ZERO_TOL * ref, "||result|| for an exactly zero product (reference scale %.3e, result ranks %s)" % (
+            ref, list(result.R)))
     err = fro(rd.reshape(-1) - exact.reshape(-1))
     bound = (C * eps + FLOOR) * ne
     return within(err, bound, "||result - exact|| (C=%g, eps=%g, ||exact||=%.3e, rel.err=%.3e, result ranks %s)" % (
@@ -55,7 +61,7 @@ def _finite(result):
 @contract
 @icontract.snapshot(lambda initial: snapshot_tt(initial), name="guess")
 @clause("guess_modified", lambda OLD, initial: _guess_clause(OLD.guess, initial))
-@clause("accuracy", lambda result, A, x, eps: _accuracy(result, _exact_mv(A, x), eps))
+@clause("accuracy", lambda result, A, x, eps: _accuracy(result, _exact_mv(A, x), eps, A, x))
 @clause("finite", lambda result: _finite(result))
 @clause("shape", lambda result, A: (
     (not result.is_ttm) and shape_of(result) == list(A.M), "expected TT tensor of shape %s, got %s%s" % (
@@ -69,7 +75,7 @@ def fast_matvec(A, x, eps, initial):
 @contract
 @icontract.snapshot(lambda z0: snapshot_tt(z0), name="guess")
 @clause("guess_modified", lambda OLD, z0: _guess_clause(OLD.guess, z0))
-@clause("accuracy", lambda result, x, y, eps: _accuracy(result, dense(x) * dense(y), eps))
+@clause("accuracy", lambda result, x, y, eps: _accuracy(result, dense(x) * dense(y), eps, x, y))
 @clause("finite", lambda result: _finite(result))
 @clause("shape", lambda result, x: (
     (not result.is_ttm) and shape_of(result) == list(x.N), "expected TT tensor of shape %s, got %s%s" % (
@@ -83,7 +89,7 @@ def dmrg_hadamard(x, y, eps, z0):
 @contract
 @icontract.snapshot(lambda x0: snapshot_tt(x0), name="guess")
 @clause("guess_modified", lambda OLD, x0: _guess_clause(OLD.guess, x0))
-@clause("accuracy", lambda result, A, x, eps: _accuracy(result, _exact_mv(A, x), eps))
+@clause("accuracy", lambda result, A, x, eps: _accuracy(result, _exact_mv(A, x), eps, A, x))
 @clause("finite", lambda result: _finite(result))
 @clause("shape", lambda result, A: (
     (not result.is_ttm) and shape_of(result) == list(A.M), "expected TT tensor of shape %s, got %s%s" % (
@@ -98,7 +104,7 @@ def amen_mv(A, x, eps, x0):
 @contract
 @icontract.snapshot(lambda X0: snapshot_tt(X0), name="guess")
 @clause("guess_modified", lambda OLD, X0: _guess_clause(OLD.guess, X0))
-@clause("accuracy", lambda result, A, B, eps: _accuracy(result, _exact_mm(A, B), eps))
+@clause("accuracy", lambda result, A, B, eps: _accuracy(result, _exact_mm(A, B), eps, A, B))
 @clause("finite", lambda result: _finite(result))
 @clause("shape", lambda result, A, B: (
     result.is_ttm and shape_of(result) == list(zip(A.M, B.N)), "expected TT-matrix of shape %s, got %s%s" % (
@@ -115,6 +121,14 @@ def _rot(N):
     return list(N[1:]) + list(N[:1])
 
 
+def _post(t, a, which):
+    """round 2: zero operands and operands with norm far from 1.  which = 'first' (A / x of hadamard) or 'second'."""
+    t = scale_tt(torchtt, t, a.get("s_" + which))
+    if a.get("zero") in (which, "both"):
+        t = torchtt.TT([torch.zeros_like(c) for c in t.cores])
+    return t
+
+
 def run_case(a, check):
     dt = dtype_of(a["dtype"])
     N = list(a["N"])
@@ -124,8 +138,8 @@ def run_case(a, check):
     seed_all(a["seed"])
     op = a["op"]
     if op in ("fast_matvec", "amen_mv"):
-        A = rand_tt(torchtt, list(zip(M, N)), r, dt)
-        x = rand_tt(torchtt, N, r, dt)
+        A = _post(rand_tt(torchtt, list(zip(M, N)), r, dt), a, "first")
+        x = _post(rand_tt(torchtt, N, r, dt), a, "second")
         guess = None if g is None else torchtt.random(M, g, dtype=dt)
         seed_all(a["seed"] + 7919)
         if op == "fast_matvec":
@@ -133,15 +147,15 @@ def run_case(a, check):
         else:
             check(None, lambda: amen_mv(A, x, a["eps"], guess))
     elif op == "dmrg_hadamard":
-        x = rand_tt(torchtt, N, r, dt)
-        y = rand_tt(torchtt, N, r, dt)
+        x = _post(rand_tt(torchtt, N, r, dt), a, "first")
+        y = _post(rand_tt(torchtt, N, r, dt), a, "second")
         guess = None if g is None else torchtt.random(N, g, dtype=dt)
         seed_all(a["seed"] + 7919)
         check(None, lambda: dmrg_hadamard(x, y, a["eps"], guess))
     elif op == "amen_mm":
         K = list(a["K"])
-        A = rand_tt(torchtt, list(zip(M, K)), r, dt)
-        B = rand_tt(torchtt, list(zip(K, N)), r, dt)
+        A = _post(rand_tt(torchtt, list(zip(M, K)), r, dt), a, "first")
+        B = _post(rand_tt(torchtt, list(zip(K, N)), r, dt), a, "second")
         guess = None if g is None else torchtt.random(list(zip(M, N)), g, dtype=dt)
         seed_all(a["seed"] + 7919)
         check(None, lambda: amen_mm(A, B, a["eps"], guess))
@@ -149,7 +163,7 @@ def run_case(a, check):
         raise ValueError("unknown op %r" % op)
 
 
-def _mk(op, N, rank, eps, guess, dtype, seed):
+def _mk(op, N, rank, eps, guess, dtype, seed, zero=None, s_first=None, s_second=None):
     N = list(N)
     M = list(reversed(N))
     a = {"op": op, "N": N, "M": M, "rank": rank, "eps": eps, "guess": guess, "dtype": dtype, "seed": seed}
@@ -157,7 +171,53 @@ def _mk(op, N, rank, eps, guess, dtype, seed):
         a["K"] = _rot(N)
     a["id"] = case_id(op, "order%d" % len(N), "N=%s" % str(N).replace(" ", ""), "r=%d" % rank, "eps=%g" % eps,
                       "guess=%s" % ("none" if guess is None else "rank%d" % guess), dtype, "seed=%d" % seed)
+    if zero:
+        a["zero"] = zero
+        a["id"] += ".zero=" + zero
+    if s_first:
+        a["s_first"] = s_first
+        a["id"] += ".first:" + scale_tag(s_first)
+    if s_second:
+        a["s_second"] = s_second
+        a["id"] += ".second:" + scale_tag(s_second)
     return a
+
+
+def scaled_and_zero_cases(tier, seed):
+    """Round 2 family: zero operands (exact product 0) and operands with norms 1e-6 / 1e6 (relative contract unchanged)."""
+    quick = tier == "quick"
+    cases = []
+    z_shapes = [[3], [2, 3], [3, 1, 5], [2, 3, 2]] if quick else [[3], [1], [2, 3], [1, 5], [3, 1, 5], [2, 3, 2], [2, 2, 3, 2]]
+    for op in OPS:
+        for N in z_shapes:
+            for zero in ("first", "second", "both"):
+                for g in (None, 3):
+                    for eps in ([1e-6] if quick else [1e-2, 1e-6, 1e-10]):
+                        for s in ([seed] if quick else [seed, 1]):
+                            cases.append(_mk(op, N, 2, eps, g, "float64", s, zero=zero))
+    one = lambda f, k: {"mode": "one", "factor": f, "core": k}    # noqa: E731
+    spread = lambda f: {"mode": "spread", "factor": f}            # noqa: E731
+    combos = [(one(1e-6, 0), None), (None, one(1e6, -1)), (spread(1e6), spread(1e6)), (spread(1e-6), spread(1e-6)),
+              (one(1e3, -1), one(1e-6, 0)), ({"mode": "alt", "p": 3}, {"mode": "alt", "p": -3})]
+    if not quick:
+        combos += [(one(1e6, 0), one(1e-6, -1)), (spread(-1e-3), None), (None, {"mode": "alt", "p": 6})]
+    s_shapes = [[3], [2, 3], [2, 3, 2], [3, 1, 5], [5, 5, 5]] if quick else [[3], [2, 3], [5, 1], [2, 3, 2], [3, 1, 5], [5, 5, 5],
+                                                                           [2, 3, 4, 2], [2, 3, 2, 3, 2]]
+    for op in OPS:
+        for N in s_shapes:
+            for (sf, ss) in combos:
+                for r in ([2, 3] if quick else [1, 2, 4]):
+                    for eps in [1e-2, 1e-6, 1e-10]:
+                        for g in (None, 3):
+                            for s in ([seed] if quick else [seed, 1]):
+                                cases.append(_mk(op, N, r, eps, g, "float64", s, s_first=sf, s_second=ss))
+    if not quick:
+        for op in ("fast_matvec", "dmrg_hadamard"):
+            for N in [[2, 3], [2, 3, 2]]:
+                for (sf, ss) in combos[:4]:
+                    for eps in [1e-2, 1e-6]:
+                        cases.append(_mk(op, N, 2, eps, None, "complex128", seed, s_first=sf, s_second=ss))
+    return cases
 
 
 QUICK_SHAPES = [[1], [3], [5],
@@ -200,6 +260,7 @@ def enumerate_cases(tier, seed):
                     for g in [None, 3]:
                         for s in seeds[:2]:
                             cases.append(_mk(op, N, r, eps, g, "complex128", s))
+    cases += scaled_and_zero_cases(tier, seed)
     return cases
 
 
@@ -213,7 +274,14 @@ def bound(tier, seed):
                 "torchtt.random of rank 3}; seeds {%d, 1}; float64, plus complex128 for fast_matvec and dmrg_hadamard on "
                 "5 shapes (r=2, eps=1e-6). Contract: result is a TT of the right N (and M), finite, "
                 "||dense(result)-exact|| <= (50*eps + 1e-9)*||exact|| with exact = dense A@x / x*y / A@B, and the user "
-                "supplied guess object is bit-for-bit unchanged (cores, ranks)." % seed)
+                "supplied guess object is bit-for-bit unchanged (cores, ranks). ROUND-2 FAMILY: (a) zero operands - first, second or "
+                "both operands with all cores zero, shapes {[3],[2,3],[3,1,5],[2,3,2]}, rank 2, eps 1e-6, guess {None, rank 3}: no "
+                "exception and ||result|| <= 1e-12*max(1,||first||)*max(1,||second||); (b) operands far from norm 1 - shapes "
+                "{[3],[2,3],[2,3,2],[3,1,5],[5,5,5]}, ranks {2,3}, eps {1e-2,1e-6,1e-10}, guess {None, rank 3 of norm O(1)}, "
+                "(first,second) operand scalings {(first core x1e-6, none), (none, last core x1e6), (1e6 spread, 1e6 spread), "
+                "(1e-6 spread, 1e-6 spread), (last core x1e3, first core x1e-6), (core k x10**(3(-1)**k), core k x10**(-3(-1)**k))}: "
+                "same relative contract." % seed)
     return ("C11 thorough: same four ops; 25 shapes of order 1..6 with mode sizes 1..6; ranks {1,2,3,4}; eps in "
             "{1e-1,1e-2,1e-4,1e-6,1e-8,1e-10,1e-12}; guesses {None, random rank 1, 3, 6}; seeds {%d,1,2,3}; float64 + "
-            "complex128 (DMRG routines). Same contract as quick." % seed)
+            "complex128 (DMRG routines). Same contract as quick. Round-2 family as in quick with more shapes (orders 1..5), ranks "
+            "{1,2,4}, 9 scaling combinations, all three eps for zero operands, 2 seeds, complex128 for the DMRG routines." % seed)
